@@ -430,4 +430,27 @@ theorem C13_acc_owned (t : TD α) (h : t.Inv) : t.acc.Of t.asView t.data.length 
 theorem C13_acc_view (m : Mode) (v : VW) (n : Nat) (h : v.Inv n) : ∃ a, v.acc m = .ok a ∧ a.Of v n := by
   obtain ⟨it, he, hwf, habs⟩ := C08_rows_view m v n h
   exact ⟨⟨v.numCols, v.numRows, it⟩, by simp [VW.acc, he], rfl, rfl, hwf, habs⟩
+
+/-- non-vacuity: what the trait defaults see of a 2x2 window (stride 3, offset 1) of an 8-cell buffer -/
+example : VW.acc .debug ⟨⟨1, 5⟩, 2, 2, 3⟩ = .ok ⟨2, 2, ⟨⟨1, 5⟩, 2, 1⟩⟩ ∧
+    (⟨2, 2, ⟨⟨1, 5⟩, 2, 1⟩⟩ : Acc).Of ⟨⟨1, 5⟩, 2, 2, 3⟩ 8 :=
+  ⟨rfl, rfl, rfl, ⟨by decide, by decide, by decide, by decide, by decide⟩, rfl⟩
+/-- non-vacuity: exchanging its two rows moves exactly cells 1,2 and 4,5 of the buffer — the call and the stated cell
+    permutation evaluate to the same list — and the hypotheses of `C13_swap_rows_default` hold for it -/
+example : (⟨2, 2, ⟨⟨1, 5⟩, 2, 1⟩⟩ : Acc).swapRows .debug [0, 1, 2, 3, 4, 5, 6, 7] 0 1 = .ok [0, 4, 5, 3, 1, 2, 6, 7] ∧
+    gather [0, 1, 2, 3, 4, 5, 6, 7] ((⟨⟨1, 5⟩, 2, 2, 3⟩ : VW).mapCells (swapRowsG 0 1)) = [0, 4, 5, 3, 1, 2, 6, 7] :=
+  ⟨by rfl, by rfl⟩
+example : (⟨2, 2, ⟨⟨1, 5⟩, 2, 1⟩⟩ : Acc).swapRows .release [0, 1, 2, 3, 4, 5, 6, 7] 0 1 =
+    .ok (gather [0, 1, 2, 3, 4, 5, 6, 7] ((⟨⟨1, 5⟩, 2, 2, 3⟩ : VW).mapCells (swapRowsG 0 1))) :=
+  (C13_swap_rows_default .release ⟨⟨1, 5⟩, 2, 2, 3⟩ [0, 1, 2, 3, 4, 5, 6, 7]
+    ⟨by decide, by decide, by decide, by decide, by decide, by decide⟩ _
+    ⟨rfl, rfl, ⟨by decide, by decide, by decide, by decide, by decide⟩, rfl⟩ 0 1 (by decide)).1 (by decide)
+/-- non-vacuity of `C13_swap_owned`: `swap` on a concrete 3x2 array, in range (evaluated) and out of range -/
+example : TD.swap .debug (⟨[1, 2, 3, 4, 5, 6], 2, 3⟩ : TD Nat) 0 0 2 1 = .ok [6, 2, 3, 4, 5, 1] ∧
+    TD.swap .release (⟨[1, 2, 3, 4, 5, 6], 2, 3⟩ : TD Nat) 0 0 3 1 = .error .panic := by
+  refine ⟨?_, (C13_swap_owned .release _ ⟨rfl, by decide, by decide⟩ 0 0 3 1 (by decide)).2 (by decide)⟩
+  rw [(C13_swap_owned .debug (⟨[1, 2, 3, 4, 5, 6], 2, 3⟩ : TD Nat) ⟨rfl, by decide, by decide⟩ 0 0 2 1 (by decide)).1
+    (by decide)]
+  rfl
+
 end Toodee
